@@ -631,10 +631,12 @@ structure Flags where
   conns : List Conn
   cfgTcp : Bool
   tcpSet : Bool
+  stopH : List HF
   deriving DecidableEq
 
 def Ctx.flags (c : Ctx) : Flags :=
-  { active := c.active, used := c.used, routerUp := c.routerUp, conns := c.conns, cfgTcp := c.cfgTcp, tcpSet := c.tcpSet }
+  { active := c.active, used := c.used, routerUp := c.routerUp, conns := c.conns, cfgTcp := c.cfgTcp, tcpSet := c.tcpSet,
+    stopH := c.stopH }
 
 theorem flags_mkReserve {c c1 : Ctx} {n : Name} (h : mkReserve c n = .ok c1) : c1.flags = c.flags := by
   unfold mkReserve at h
@@ -729,7 +731,7 @@ theorem flags_tjoin (c : Ctx) (n : Name) : (tjoin c n).1.flags = c.flags := by
   all_goals rfl
 
 /-- operations other than `start` / `stop` leave the lifecycle state (flags, router, sockets) alone -/
-theorem flags_step (c : Ctx) (op : Op) (h1 : ∀ t u, op ≠ .start t u) (h2 : op ≠ .stop) :
+theorem flags_step (c : Ctx) (op : Op) (h1 : ∀ t u, op ≠ .start t u) (h2 : op ≠ .stop) (h3 : ∀ f, op ≠ .addH f) :
     (step c op).1.flags = c.flags := by
   cases op with
   | make k n v cf rf rb => exact flags_make _ k n v cf rf rb
@@ -741,7 +743,7 @@ theorem flags_step (c : Ctx) (op : Op) (h1 : ∀ t u, op ≠ .start t u) (h2 : o
   | iclose n => exact flags_iclose _ n
   | tstart n => exact flags_tstart _ n
   | tjoin n => exact flags_tjoin _ n
-  | addH f => rfl
+  | addH f => exact absurd rfl (h3 f)
   | start t u => exact absurd rfl (h1 t u)
   | stop => exact absurd rfl h2
 
@@ -790,10 +792,161 @@ theorem used_of_active_step {c : Ctx} (h : c.active = true → c.used = true) (o
       have := stop_used_active { c with log := [] }
       show (stop { c with log := [] }).1.used = true
       rw [this.1]; exact h (this.2 hact)
-    · have f := flags_step c op (fun t u e => h1 ⟨t, u, e⟩) h2
+    · by_cases h3 : ∃ f, op = .addH f
+      · obtain ⟨f, rfl⟩ := h3; exact h
+      have f := flags_step c op (fun t u e => h1 ⟨t, u, e⟩) h2 (fun f e => h3 ⟨f, e⟩)
       intro hact
       have a1 : (step c op).1.active = c.active := congrArg Flags.active f
       have a2 : (step c op).1.used = c.used := congrArg Flags.used f
       rw [a2]; exact h (a1 ▸ hact)
+
+
+/-! ### layer B: the stuck singleton and the good states -/
+
+/-- the singleton holds a context whose `start()` failed after the router came up -/
+def StuckP (p : Proc) : Prop :=
+  ∃ c, p.single = some c ∧ c.active = false ∧ c.used = false ∧ c.routerUp = true
+
+theorem stuck_step {c : Ctx} (ha : c.active = false) (hu : c.used = false) (hr : c.routerUp = true) (op : Op) :
+    (step c op).1.active = false ∧ (step c op).1.used = false ∧ (step c op).1.routerUp = true := by
+  by_cases h1 : ∃ t u, op = .start t u
+  · obtain ⟨t, u, rfl⟩ := h1
+    simp [step, start, ha, hu, hr]
+  · by_cases h2 : op = .stop
+    · subst h2; simp [step, stop, stopHead, ha, hu, hr]
+    · by_cases h3 : ∃ f, op = .addH f
+      · obtain ⟨f, rfl⟩ := h3; exact ⟨ha, hu, hr⟩
+      have f := flags_step c op (fun t u e => h1 ⟨t, u, e⟩) h2 (fun f e => h3 ⟨f, e⟩)
+      exact ⟨(congrArg Flags.active f).trans ha, (congrArg Flags.used f).trans hu, (congrArg Flags.routerUp f).trans hr⟩
+
+theorem stuckP_qstart {p : Proc} (h : StuckP p) (v t tf uf : Bool) (peers : List Bool) :
+    StuckP (pstep p (.qstart v t tf uf peers)).1 ∧ (pstep p (.qstart v t tf uf peers)).2 = .exc .usage := by
+  obtain ⟨c, hc, ha, hu, hr⟩ := h
+  simp only [pstep, pstep', Proc.clr, hc, Option.map_some, qstart]
+  exact ⟨⟨_, rfl, ha, hu, hr⟩, trivial⟩
+
+theorem stuckP_qstop {p : Proc} (h : StuckP p) :
+    StuckP (pstep p .qstop).1 ∧ (pstep p .qstop).2 = .exc .usage := by
+  obtain ⟨c, hc, ha, hu, hr⟩ := h
+  have e : stop { c with log := [] } = ({ c with log := [] }, .exc .usage) := by simp [stop, stopHead, ha]
+  simp only [pstep, pstep', Proc.clr, hc, Option.map_some, qstop, e]
+  exact ⟨⟨_, rfl, ha, hu, hr⟩, trivial⟩
+
+theorem stuckP_pstep {p : Proc} (h : StuckP p) (o : POp) : StuckP (pstep p o).1 := by
+  cases o with
+  | qstart v t tf uf peers => exact (stuckP_qstart h v t tf uf peers).1
+  | qstop => exact (stuckP_qstop h).1
+  | qcontext =>
+    obtain ⟨c, hc, ha, hu, hr⟩ := h
+    simp only [pstep, pstep', Proc.clr, hc, Option.map_some]
+    exact ⟨_, rfl, ha, hu, hr⟩
+  | op o =>
+    obtain ⟨c, hc, ha, hu, hr⟩ := h
+    simp only [pstep, pstep', Proc.clr, hc, Option.map_some]
+    have := stuck_step (c := { c with log := [] }) ha hu hr o
+    exact ⟨_, rfl, this.1, this.2.1, this.2.2⟩
+
+theorem stuckP_prun {p : Proc} (h : StuckP p) (ops : List POp) : StuckP (prun p ops) := by
+  induction ops generalizing p with
+  | nil => exact h
+  | cons o os ih => exact ih (stuckP_pstep h o)
+
+/-- no singleton, or an active well-formed one whose stop handlers raise at most `Exception`s -/
+def GoodP (p : Proc) : Prop :=
+  p.single = none ∨ ∃ c, p.single = some c ∧ WF c ∧ c.active = true ∧ firstBase c.stopH 0 = none
+
+/-- operations that cannot leave the good states -/
+def Harmless : POp → Prop
+  | .qstart _ t tf uf _ => (t && tf) = false ∧ uf = false
+  | .op .stop => False
+  | .op (.addH .base) => False
+  | _ => True
+
+theorem firstBase_append (l : List HF) (f : HF) (i : Nat) (h : firstBase l i = none) (hf : f ≠ .base) :
+    firstBase (l ++ [f]) i = none := by
+  induction l generalizing i with
+  | nil => cases f <;> simp_all [firstBase]
+  | cons a r ih => cases a <;> simp_all [firstBase]
+
+theorem connectPeers_good : ∀ (peers : List Bool) (c : Ctx) (i : Nat), WF c → c.active = true → firstBase c.stopH 0 = none →
+    WF (connectPeers c peers i).1 ∧ (connectPeers c peers i).1.active = true ∧ firstBase (connectPeers c peers i).1.stopH 0 = none
+  | [], c, i, hw, ha, hb => ⟨hw, ha, hb⟩
+  | true :: r, c, i, hw, ha, hb => by
+    unfold connectPeers
+    exact connectPeers_good r _ _ (hw.congr rfl rfl rfl rfl rfl) ha hb
+  | false :: r, c, i, hw, ha, hb => ⟨hw, ha, hb⟩
+
+theorem start_stopH (c : Ctx) (t u : Bool) : (start c t u).1.stopH = c.stopH := by
+  cases hA : c.active <;> cases hU : c.used <;> cases hR : c.routerUp <;> cases hT : c.cfgTcp <;> cases t <;> cases u <;>
+    simp [start, hA, hU, hR, hT]
+
+theorem goodP_pstep {p : Proc} (hp : GoodP p) {o : POp} (ho : Harmless o) : GoodP (pstep p o).1 := by
+  rcases hp with hn | ⟨c, hc, hw, ha, hb⟩
+  · cases o with
+    | qstart v t tf uf peers =>
+      simp only [Harmless] at ho
+      cases v with
+      | false => left; simp only [pstep, pstep', Proc.clr, hn, Option.map_none, qstart]; rfl
+      | true =>
+        right
+        have hst : (start (Ctx.init t) tf uf).2 = .ok ∧ (start (Ctx.init t) tf uf).1.active = true ∧
+            (start (Ctx.init t) tf uf).1.stopH = [] := by
+          obtain ⟨h1, h2⟩ := ho
+          subst h2
+          cases t <;> cases tf <;> simp_all [start, Ctx.init]
+        have hw1 : WF (start (Ctx.init t) tf uf).1 := wf_start (wf_init t) tf uf
+        have hb1 : firstBase (start (Ctx.init t) tf uf).1.stopH 0 = none := by rw [hst.2.2]; rfl
+        have hg := connectPeers_good peers _ 0 hw1 hst.2.1 hb1
+        simp only [pstep, pstep', Proc.clr, hn, Option.map_none, qstart, Bool.not_true, Bool.false_eq_true, if_false]
+        cases hs : start (Ctx.init t) tf uf with
+        | mk c1 o1 =>
+          rw [hs] at hst hg
+          simp only at hst
+          rw [hst.1]
+          exact ⟨_, rfl, hg.1, hg.2.1, hg.2.2⟩
+    | qstop => left; simp only [pstep, pstep', Proc.clr, hn, Option.map_none, qstop]
+    | qcontext => left; simp only [pstep, pstep', Proc.clr, hn, Option.map_none]
+    | op o => left; simp only [pstep, pstep', Proc.clr, hn, Option.map_none]
+  · have h0 : WF { c with log := [] } := hw.congr rfl rfl rfl rfl rfl
+    cases o with
+    | qstart v t tf uf peers =>
+      right
+      simp only [pstep, pstep', Proc.clr, hc, Option.map_some, qstart]
+      exact ⟨_, rfl, h0, ha, hb⟩
+    | qstop =>
+      left
+      simp only [pstep, pstep', Proc.clr, hc, Option.map_some, qstop]
+      rw [stop_ok h0 ha hb]
+    | qcontext =>
+      right
+      simp only [pstep, pstep', Proc.clr, hc, Option.map_some]
+      exact ⟨_, rfl, h0, ha, hb⟩
+    | op o =>
+      right
+      simp only [pstep, pstep', Proc.clr, hc, Option.map_some]
+      refine ⟨_, rfl, wf_step h0 o, ?_, ?_⟩
+      · by_cases h1 : ∃ t u, o = .start t u
+        · obtain ⟨t, u, rfl⟩ := h1
+          simp [step, start, ha]
+        · by_cases h2 : o = .stop
+          · subst h2; exact absurd ho (by simp [Harmless])
+          · by_cases h3 : ∃ f, o = .addH f
+            · obtain ⟨f, rfl⟩ := h3; exact ha
+            · have f := flags_step { c with log := [] } o (fun t u e => h1 ⟨t, u, e⟩) h2 (fun f e => h3 ⟨f, e⟩)
+              exact (congrArg Flags.active f).trans ha
+      · by_cases h1 : ∃ t u, o = .start t u
+        · obtain ⟨t, u, rfl⟩ := h1
+          show firstBase (start _ t u).1.stopH 0 = none
+          rw [start_stopH]; exact hb
+        · by_cases h2 : o = .stop
+          · subst h2; exact absurd ho (by simp [Harmless])
+          · by_cases h3 : ∃ f, o = .addH f
+            · obtain ⟨f, rfl⟩ := h3
+              have hf : f ≠ .base := by intro e; subst e; exact absurd ho (by simp [Harmless])
+              exact firstBase_append _ _ _ hb hf
+            · have f := flags_step { c with log := [] } o (fun t u e => h1 ⟨t, u, e⟩) h2 (fun f e => h3 ⟨f, e⟩)
+              have : (step { c with log := [] } o).1.stopH = c.stopH := congrArg Flags.stopH f
+              show firstBase (step { c with log := [] } o).1.stopH 0 = none
+              rw [this]; exact hb
 
 end QmiModel.Context
